@@ -1,6 +1,7 @@
 (* C16 — Closed and replaced connections release their resources. *)
 From Coq Require Import List NArith.
 From OAP Require Import Base.Bytes Base.Res Model.Life Proofs.LifeP.
+From OAP Require Import Model.ChanForms Gen.Chans Proofs.ChanFormsP.
 Import ListNotations.
 Local Open Scope N_scope.
 
@@ -18,6 +19,15 @@ Theorem C16_lingering_goroutine_can_exit : forall c, lingering c = true ->
   exists g, alive (hd c (exit_g 0 g [c])) = (alive c - 1)%nat.
 Proof. exact lingering_can_exit. Qed.
 
+(* the goroutines of a connection cannot sleep through its close: in the source (Gen/Chans.v) every receive of a
+   dispatcher or writer is a select that also lists the connection's close signal or a ticker, except the one plain
+   receive per dispatcher that drains the packets counted with len() beforehand *)
+Theorem C16_conn_goroutines_wake_on_close_in_source :
+  conn_goroutines_wake chan_ops = true /\ dispatcher_shape f_tcp_disp chan_ops = true /\
+  dispatcher_shape f_ws_disp chan_ops = true.
+Proof. exact idle_conn_goroutines_wake. Qed.
+
 Print Assumptions C16_at_most_one_open_connection.
 Print Assumptions C16_quiescent_released.
 Print Assumptions C16_lingering_goroutine_can_exit.
+Print Assumptions C16_conn_goroutines_wake_on_close_in_source.
